@@ -108,7 +108,8 @@ let () =
             let c = parse_sx case in
             let impl = parse_events evs in
             let model = run_case mode comp_n c in
-            let agree = evs_eqb model impl in
+            (* K is scoped per property: compared through the projection the property's theorems speak about (Judge.project) *)
+            let agree = evs_eqb (project prop comp_n model) (project prop comp_n impl) in
             let ok = oracle prop comp_n c impl in
             if judged prop comp_n c then incr njudged;
             if not agree then begin
